@@ -11,6 +11,7 @@ k0 == <<B0>>
 
 TKeys4 == {kE, kA, kAF, kF}
 TKeys3 == {kE, kA, kF}
+RTKeys1 == {kE}
 Noise3 == {k0, kB, <<Bb, B0>>}
 Vals1 == {"1"}
 Vals2 == {"", "1"}
